@@ -159,8 +159,30 @@ func GenCase(prop string, regs []*Registration, r *Rng) *Case {
 				ops = append(ops, Op{Kind: "call", Method: m, Seed: r.U64(), NArgs: 1}) // empty variadic list
 			}
 		}
+		if resets && r.Chance(1, 60) {
+			// a long-lived mock: one method's log grows to hundreds of records, is read, reset
+			// (alone or with all others), read again and used again — behaviour that depends on the
+			// size a log once had shows here
+			ops = nil
+			hot = pickS(r, names)
+			for i, k := 0, 100+r.Intn(300); i < k; i++ {
+				ops = append(ops, Op{Kind: "call", Method: hot, Seed: r.U64()})
+			}
+			ops = append(ops, Op{Kind: "calls", Method: hot})
+			if r.Chance(1, 2) {
+				ops = append(ops, Op{Kind: "reset", Method: hot})
+			} else {
+				ops = append(ops, Op{Kind: "resetall"})
+			}
+			ops = append(ops, Op{Kind: "calls", Method: hot})
+			for i, k := 0, 1+r.Intn(3); i < k; i++ {
+				ops = append(ops, Op{Kind: "call", Method: pickS(r, []string{hot, hot, pickS(r, names)}), Seed: r.U64()})
+			}
+			ops = append(ops, Op{Kind: "calls", Method: hot}, Op{Kind: "calls", Method: pickS(r, names)})
+			cs.Modes["_workload"] = "long-lived-log"
+		}
 		cs.Tasks = [][]Op{ops}
-		cs.Sched = simsync.Config{Strategy: "random", Seed: r.U64(), MaxSteps: 20000}
+		cs.Sched = simsync.Config{Strategy: "random", Seed: r.U64(), MaxSteps: 200000}
 	default: // C05 on a matryer mock
 		hot := pickS(r, names)
 		if r.Chance(1, 6) {
@@ -170,6 +192,9 @@ func GenCase(prop string, regs []*Registration, r *Rng) *Case {
 			cs.Modes[hot] = "reentrant"
 		}
 		if reg.Opts["stub-impl"] && r.Chance(1, 4) {
+			cs.Modes[pickS(r, names)] = "nil"
+		} else if !reg.Opts["stub-impl"] && r.Chance(1, 6) {
+			// a method nobody gave a Func: its callers panic (and recover) while others go on
 			cs.Modes[pickS(r, names)] = "nil"
 		}
 		nt := 2 + r.Intn(3)
